@@ -377,7 +377,14 @@ static void multi_stream(Src& s) {
         if (r.out.size() < plain.size() && plain.compare(0, r.out.size(), r.out) == 0) {
             vp::fail("corruption-accepted-as-shorter-file", std::string{cname(comp)} + SRC_NAME[from_fd] + ": byte " + std::to_string(pos) + " of " + std::to_string(file.size()) + " corrupted, accepted without error with " + std::to_string(r.out.size()) + " of " + std::to_string(plain.size()) + " bytes | " + desc);
         }
-        vp::count("corruption_other_output_not_asserted");
+        // Neither an error nor the right bytes. Both formats protect every stream with a 32-bit CRC, which detects any single corrupted
+        // byte inside the protected data; header bytes outside it either do not matter (output unchanged: counted above as harmless) or
+        // make the decoder fail. So a different output without an exception means that an error of the decompression library was
+        // dropped on the way to the caller. (In 40 000 probes per run on the unchanged tree this outcome never occurred while it was
+        // only counted; asserted since seeded change C09-f.)
+        size_t common = 0;
+        while (common < r.out.size() && common < plain.size() && r.out[common] == plain[common]) ++common;
+        vp::fail("corruption-accepted-with-wrong-data", std::string{cname(comp)} + SRC_NAME[from_fd] + ": byte " + std::to_string(pos) + " of " + std::to_string(file.size()) + " corrupted, accepted without error: " + std::to_string(r.out.size()) + " bytes delivered (the payload has " + std::to_string(plain.size()) + "), first difference at byte " + std::to_string(common) + " | " + desc);
     }
     if (k >= 2) vp::nontrivial(vp::hash_str(desc) ^ vp::hash_str(plain));
     vp::count(std::string{cname(comp)} + (from_fd == SRC_PIPE ? "_pipe" : from_fd ? "_fd" : "_buffer"));
